@@ -19,7 +19,7 @@ CAND = ["x", "xM", "xA", "xC", "y", "yM", "yA", "yC", "zz", "None", "kind"]
 
 
 def bounds(tier):
-    return dict(tier=tier, alias_assignments=64, flags=4, discriminator=[False, True], entry_points=["mixin", "codec", "via-base"],
+    return dict(tier=tier, alias_assignments=64, flags=4, field_types=["int (converted)", "Any (passed through)"], discriminator=[False, True], entry_points=["mixin", "codec", "via-base"],
                 candidate_keys=CAND, key_subsets=2 ** len(CAND))
 
 
@@ -29,18 +29,21 @@ def units(tier):
         for ys in itertools.product((0, 1), repeat=3):
             for allow, forbid in itertools.product((False, True), repeat=2):
                 for discr in (False, True):
-                    out.append((xs, ys, allow, forbid, discr))
+                    for anytyped in (False, True):      # int fields are converted, Any fields are passed through as they are
+                        out.append((xs, ys, allow, forbid, discr, anytyped))
     return out
 
 
-def build(xs, ys, allow, forbid, discr, mixin, ctx):
+def build(xs, ys, allow, forbid, discr, mixin, ctx, anytyped=False):
     from mashumaro import DataClassDictMixin
     from mashumaro.config import BaseConfig
     from mashumaro.types import Alias, Discriminator
     xm, xa, xc = xs
     ym, ya, yc = ys
-    xt = Annotated[int, Alias("xA")] if xa else int
-    yt = Annotated[int, Alias("yA")] if ya else int
+    from typing import Any
+    base_t = Any if anytyped else int
+    xt = Annotated[base_t, Alias("xA")] if xa else base_t
+    yt = Annotated[base_t, Alias("yA")] if ya else base_t
     xf = field(metadata={"alias": "xM"}) if xm else field()
     yf = field(default=9, metadata={"alias": "yM"}) if ym else field(default=9)
     aliases = {}
@@ -96,15 +99,15 @@ def keymodel(d, x_alias, y_alias, allow, forbid, discr):
 def run_unit(unit, only=None):
     from mashumaro.codecs.basic import BasicDecoder
     from mashumaro.exceptions import ExtraKeysError, MissingField
-    xs, ys, allow, forbid, discr = unit
+    xs, ys, allow, forbid, discr, anytyped = unit
     res = core.UnitResult()
     eps = []
     ctx1, ctx2 = space.Ctx(), space.Ctx()
-    cls, base, xal, yal = build(xs, ys, allow, forbid, discr, True, ctx1)
+    cls, base, xal, yal = build(xs, ys, allow, forbid, discr, True, ctx1, anytyped)
     eps.append(("mixin", cls, cls.from_dict))
     if discr:
         eps.append(("via-base", cls, base.from_dict))
-    clsp, _, _, _ = build(xs, ys, allow, forbid, discr, False, ctx2)
+    clsp, _, _, _ = build(xs, ys, allow, forbid, discr, False, ctx2, anytyped)
     eps.append(("codec", clsp, BasicDecoder(clsp).decode))
     res.transitions += 3
     for mask in range(1 << len(CAND)):
@@ -152,4 +155,4 @@ def run_unit(unit, only=None):
 
 def replay(case):
     u = core.detuple(case["unit"])
-    return run_unit((tuple(u[0]), tuple(u[1]), u[2], u[3], u[4]), only=(case["entry"], case["mask"])).violations
+    return run_unit((tuple(u[0]), tuple(u[1]), u[2], u[3], u[4], u[5]), only=(case["entry"], case["mask"])).violations
